@@ -36,10 +36,49 @@ def _mods():
 # form : S  Interval(lo,hi) of shape () | S1 shape (1,) | A shape (n,) | A2 shape (2,n/2)
 # entry: method X.fn() | ufunc np.fn(X) | vec methods.fn_vector(X) | alt (methods.sigmoid instead of activation.sigmoid)
 
+ARRAY_FORMS = ("A", "A2", "A2F", "A2T", "A3", "AL", "AI")
+ORACLE_ONLY = ("sqrtpow",)      # compositions: judged by the oracle, no model entry point
+
+
 def build(c):
+    X = build0(c)
+    prep = c.get("prep")
+    if prep == "copy":
+        import copy
+        return copy.copy(X)
+    if prep == "deepcopy":
+        import copy
+        return copy.deepcopy(X)
+    if prep == "pickle":
+        import pickle
+        return pickle.loads(pickle.dumps(X))
+    if prep == "rebuilt":          # rebuilt from its own public read-outs
+        I, _, _ = _mods()
+        return I(X.lo, X.hi)
+    if prep == "getitem" and c["form"] in ARRAY_FORMS and c["form"] not in ("A2", "A2F", "A2T", "A3"):
+        return X[:]
+    return X
+
+
+def build0(c):
     I, _, _ = _mods()
     lo, hi = c["lo"], c["hi"]
     f = c["form"]
+    if f in ("A2F", "A2T", "A3"):
+        n = len(lo) // 2
+        L = np.array(lo, dtype=float).reshape(2, n)
+        H = np.array(hi, dtype=float).reshape(2, n)
+        if f == "A2F":             # Fortran-ordered memory, same logical array
+            return I(np.asfortranarray(L), np.asfortranarray(H))
+        if f == "A2T":             # non-contiguous transposed view, same logical array
+            return I(np.ascontiguousarray(L.T).T, np.ascontiguousarray(H.T).T)
+        return I(L.reshape(2, 1, n), H.reshape(2, 1, n))
+    if f == "AL":                  # plain python lists
+        return I([float(x) for x in lo], [float(x) for x in hi])
+    if f == "AI":                  # integer dtype when every bound is an integer
+        if all(float(x).is_integer() and abs(x) < 2 ** 40 for x in lo + hi):
+            return I(np.array(lo, dtype=np.int64), np.array(hi, dtype=np.int64))
+        return I(np.array(lo, dtype=float), np.array(hi, dtype=float))
     if f == "S":
         return I(lo[0], hi[0])
     if f == "S1":
@@ -77,6 +116,10 @@ def call(c, X):
         return M.sigmoid(X) if e == "alt" else A.sigmoid(X)
     if fn == "tanh":
         return M.tanh(X)
+    if fn == "atanh":
+        return A.tanh(X)
+    if fn == "sqrtpow":
+        return (X ** kobj(c)).sqrt()
     if fn == "abs":
         return X.abs()
     if e == "ufunc":
@@ -123,7 +166,7 @@ def run_impl(c):
 
 def uses_array_op(c):
     """which model entry point mirrors the path the real code takes"""
-    if c["form"] in ("A", "A2"):
+    if c["form"] in ARRAY_FORMS:
         return True
     if c["form"] == "S1":
         return c["fn"] not in TRIG        # sin/cos/tan treat shape (1,) as a scalar
@@ -167,6 +210,10 @@ def wire(c):
             return f"sig {tag} {ence(np.exp(-hi))} {ence(np.exp(-lo))}"
         if fn == "tanh":
             return f"tanh {tag} {ence(np.exp(2 * lo))} {ence(np.exp(2 * hi))}"
+        if fn == "atanh":
+            return f"atanh {tag} {enc(np.exp(2 * lo))} {enc(np.exp(2 * hi))}"
+        if fn in ORACLE_ONLY:
+            return "consts"
         T = np.pi if fn == "tan" else 2 * np.pi
         f = getattr(np, fn)
         w = hi - lo
@@ -202,7 +249,7 @@ def parse_model(c, s):
 def pow_out_of_range(c):
     """a power of an endpoint underflows to 0 or overflows to inf in binary64: rounding range effects the exact
     model does not have (tie not applicable; the oracle still judges the real result)"""
-    if c["fn"] != "pow" or c["k"] is None:
+    if c["fn"] not in ("pow", "sqrtpow") or c["k"] is None:
         return False
     k = abs(int(c["k"]))
     with np.errstate(all="ignore"):
@@ -256,6 +303,11 @@ def ref_fn(c):
         return lambda x: np.power(x, float(k)) if k >= 0 else 1.0 / np.power(x, float(-k))
     if fn == "sig":
         return lambda x: 1.0 / (1.0 + np.exp(-x))
+    if fn == "atanh":
+        return np.tanh
+    if fn == "sqrtpow":
+        k = int(c["k"])
+        return lambda x: np.power(np.abs(x), k / 2.0)
     return getattr(np, fn)
 
 
@@ -268,6 +320,10 @@ def tol(c, v, bound):
         return (1 + v * v) * 2e-14
     if fn in ("sig", "tanh"):
         return 1e-15
+    if fn == "atanh":
+        return 1e-14 * max(1.0, abs(bound) if math.isfinite(bound) else 1.0)
+    if fn == "sqrtpow":
+        return 64 * core.ulp(m) + 1e-300
     if fn == "pow":
         return 16 * (abs(int(c["k"])) + 1) * core.ulp(m) + 1e-300
     return 8 * core.ulp(m) + 1e-300
@@ -323,6 +379,12 @@ def monotone_exact(c, lo, hi):
         if fn == "abs":
             a = 0.0 if lo <= 0 <= hi else min(abs(lo), abs(hi))
             return a, max(abs(lo), abs(hi))
+        if fn == "sqrtpow":
+            f = ref_fn(c)
+            u, v = float(f(np.float64(lo))), float(f(np.float64(hi)))
+            if u == 0.0 or v == 0.0 or math.isinf(u) or math.isinf(v) or min(u, v) ** 2 < 1e-300 or max(u, v) ** 2 > 1e300:
+                return None        # x**k under/overflows in binary64: outside the model
+            return (0.0 if lo <= 0 <= hi else min(u, v)), max(u, v)
         if fn in MONO or fn in ("sig", "tanh"):
             f = ref_fn(c)
             return float(f(np.float64(lo))), float(f(np.float64(hi)))
@@ -400,7 +462,7 @@ def elements(c):
 
 def scalar_case(c, lo, hi):
     d = dict(c)
-    d.update(form="S", lo=[lo], hi=[hi], entry=("method" if c["entry"] in ("ufunc", "vec") else c["entry"]))
+    d.update(form="S", lo=[lo], hi=[hi], entry=("method" if c["entry"] in ("ufunc", "vec") else c["entry"]), prep=None)
     return d
 
 
@@ -409,7 +471,7 @@ def same_float(x, y, fn):
         return True
     if math.isnan(x) or math.isnan(y) or math.isinf(x) or math.isinf(y):
         return False
-    if fn in ("sig", "tanh"):       # intermediates of size ~1: a few ulp of 1 (as in the oracle's tolerance)
+    if fn in ("sig", "tanh", "atanh"):       # intermediates of size ~1: a few ulp of 1 (as in the oracle's tolerance)
         return abs(x - y) <= 4 * core.ulp(max(abs(x), abs(y), 1.0))
     if fn == "pow":
         return abs(x - y) <= 4 * core.ulp(max(abs(x), abs(y)))
@@ -420,6 +482,8 @@ def oracle(c, impl):
     """list of (symptom, text) — the property evaluated on the real result"""
     els = elements(c)
     fn = c["fn"]
+    if fn == "sqrtpow" and pow_out_of_range(c):
+        return []          # the intermediate x**k under/overflows in binary64: outside the model
     if fn == "pow" and wire_kind(c["kind"]) not in ("int", "npint"):
         return []          # the property quantifies over integer exponents
     fails = []
@@ -458,13 +522,14 @@ def oracle(c, impl):
 def features(c, symptom):
     return {"fn": c["fn"], "form": c["form"], "entry": c["entry"], "symptom": symptom,
             "k": (int(c["k"]) if c["k"] is not None else 0), "n": len(c["lo"]), "range": pow_out_of_range(c),
+            "extreme": any(abs(x) > 354.0 for x in c["lo"] + c["hi"]), "prep": c.get("prep") or "none",
             "call": "Interval elementary function"}
 
 
 # ---------------------------------------------------------------------------- generators
-def mk(stream, fn, form, entry, lo, hi, k=None, kind=None):
+def mk(stream, fn, form, entry, lo, hi, k=None, kind=None, prep=None):
     return {"stream": stream, "fn": fn, "form": form, "entry": entry,
-            "lo": [float(x) for x in lo], "hi": [float(x) for x in hi], "k": k, "kind": kind}
+            "lo": [float(x) for x in lo], "hi": [float(x) for x in hi], "k": k, "kind": kind, "prep": prep}
 
 
 def trig_grid(period):
@@ -532,6 +597,8 @@ def gen_cases(ctx):
          ("log", "A", "method", [1.0, 2.0], [2.0, 3.0])]
     for fn, form, entry, lo, hi in W:
         cases.append(mk("witness", fn, form, entry, lo, hi))
+    cases.append(mk("witness", "atanh", "S", "method", [400.0], [500.0]))      # open finding KF-C05-activation-tanh-overflow
+    cases.append(mk("witness", "atanh", "A", "method", [-1.0, 1.0, -3.0], [2.0, 2.0, -1.0]))
     cases.append(mk("witness", "pow", "S", "method", [1.0], [2.0], -2, "int"))
     cases.append(mk("witness", "pow", "S", "method", [-1.0], [2.0], -1, "int"))
     cases.append(mk("witness", "pow", "S", "method", [1.375], [1.875], -2, "npint"))
@@ -605,8 +672,8 @@ def gen_cases(ctx):
           800.0, 1500.0, 1e308]
     XI = [(a, b) for i, a in enumerate(XP) for b in XP[i:]]
     moderate = [(-1.0, 1.0), (0.5, 2.0), (-3.0, -0.5), (0.0, 0.0), (-20.0, 30.0)]
-    for fn in ("exp", "sig", "tanh"):
-        entries = {"exp": ["method", "ufunc", "func"], "sig": ["method", "alt"], "tanh": ["method"]}[fn]
+    for fn in ("exp", "sig", "tanh", "atanh"):
+        entries = {"exp": ["method", "ufunc", "func"], "sig": ["method", "alt"], "tanh": ["method"], "atanh": ["method"]}[fn]
         for lo, hi in XI:
             cases.append(mk("extreme", fn, "S", rng.choice(entries), [lo], [hi]))
         for _ in range(ctx.scale(150, 3000)):
@@ -759,6 +826,78 @@ def gen_cases(ctx):
         lo, hi = rng.choice(G3)
         cases.append(mk("pow-kinds", "pow", rng.choice(["S", "A"]), "method", [lo, lo], [hi, hi], rng.choice([0, 1, 2, 3]),
                         rng.choice(["float", "bool"])))
+    # ---- 4. every function on arrays MIXING the sign classes per element (negative / straddling / positive /
+    #         touching zero from either side / the point 0), rank 1 and rank 2 ------------------------------------
+    SC = [(-3.0, -1.0), (-2.0, -0.5), (-1.0, 2.0), (-0.5, 0.25), (-2.0, 0.0), (0.0, 1.5), (0.0, 0.0), (0.5, 2.0),
+          (1.0, 1.0), (2.0, 9.0), (-1.0, -1.0), (-4.0, 3.0)]
+    POS = [x for x in SC if x[0] > 0]
+    NONNEG = [x for x in SC if x[0] >= 0]
+    def mixed(n, pool):
+        xs = [rng.choice(pool) for _ in range(n)]
+        # make sure at least three different sign classes are present when the pool has them
+        want = [p for p in ((-3.0, -1.0), (-1.0, 2.0), (0.5, 2.0), (-2.0, 0.0), (0.0, 1.5)) if p in pool]
+        for i, p in zip(rng.sample(range(n), min(n, len(want), 3)), rng.sample(want, min(len(want), 3))):
+            xs[i] = p
+        return xs
+    FN = [("abs", SC, ["method"]), ("exp", SC, ["method", "ufunc", "func"]), ("sig", SC, ["method", "alt"]),
+          ("tanh", SC, ["method"]), ("atanh", SC, ["method"]), ("sqrt", NONNEG, ["method", "ufunc", "func"]),
+          ("log", POS, ["method", "ufunc", "func"]), ("sin", SC, ["method", "ufunc", "func"]),
+          ("cos", SC, ["method", "ufunc", "func"]), ("tan", SC, ["method", "ufunc", "func"])]
+    for fn, pool, entries in FN:
+        for lo, hi in SC:
+            if (lo, hi) in pool:
+                cases.append(mk("signs-scalar", fn, "S", rng.choice(entries), [lo], [hi]))
+        for _ in range(ctx.scale(60, 1500)):
+            n = rng.choice([3, 4, 4, 6, 6, 8])
+            xs = mixed(n, pool)
+            form = rng.choice(["A", "A2"]) if n % 2 == 0 else "A"
+            cases.append(mk("signs-array", fn, form, rng.choice(entries), [x[0] for x in xs], [x[1] for x in xs]))
+    for k in range(-4, 7):
+        for _ in range(ctx.scale(12, 300)):
+            n = rng.choice([3, 4, 6])
+            pool = SC if k >= 0 else [x for x in SC if not (x[0] <= 0 <= x[1])]
+            xs = mixed(n, pool)
+            form = rng.choice(["A", "A2"]) if n % 2 == 0 else "A"
+            cases.append(mk("signs-array", "pow", form, "method", [x[0] for x in xs], [x[1] for x in xs], k, rng.choice(["int", "npint"])))
+    # ---- 5. results fed back as operands: sqrt(X**k), k = 2, 4 ------------------------------------------------------
+    for k in (2, 4):
+        for lo, hi in [(1e-5, 3e-5), (1.0, 2.0), (0.5, 0.75), (-2.0, -1.0), (-1.0, 2.0), (0.0, 3.0), (2.0 ** -20, 2.0 ** -18), (3.0, 1e3)]:
+            cases.append(mk("chain", "sqrtpow", "S", "method", [lo], [hi], k, "int"))
+        for _ in range(ctx.scale(20, 400)):
+            xs = mixed(rng.choice([2, 4]), SC)
+            cases.append(mk("chain", "sqrtpow", rng.choice(["A", "A2"]) if len(xs) == 4 else "A", "method",
+                            [x[0] for x in xs], [x[1] for x in xs], k, "int"))
+    # ---- 6. magnitudes: the grid / array streams again at tiny and huge scales (powers of two keep them exact) ----------
+    SCALES = [2.0 ** -30, 2.0 ** -52, 2.0 ** -70, 1e-19, 1e-170, 2.0 ** 36, 1e150]
+    fixed = [("sqrt", 1e-40, 1e-30), ("sqrt", 1e-170, 1e-19), ("log", 1e-40, 1e-30), ("abs", -1e-40, -1e-170), ("abs", -1e-19, 1e-40),
+             ("sqrt", 2.0 ** 72, 1e150), ("log", 2.0 ** 36, 1e150), ("abs", -1e150, 2.0 ** 36), ("exp", -1e-19, 1e-19),
+             ("tanh", -1e-19, 1e-19), ("sig", -1e-170, 1e-19), ("atanh", -1e-19, 1e-19), ("sin", -1e-19, 1e-19),
+             ("cos", -1e-19, 1e-170), ("tan", 1e-170, 1e-19)]
+    for fn, lo, hi in fixed:
+        cases.append(mk("scaled", fn, "S", "method", [lo], [hi]))
+        cases.append(mk("scaled", fn, "A", "method", [lo, 1.0], [hi, 2.0]))
+    base = [c for c in cases if c["fn"] in ("abs", "sqrt", "log", "pow", "sqrtpow", "exp", "sig", "tanh", "atanh")
+            and c["stream"] in ("mono-grid", "mono-array", "pow-grid", "pow-array", "signs-scalar", "signs-array", "abs-mixed",
+                                "pow-straddle", "chain")]
+    for c in rng.sample(base, min(len(base), ctx.scale(1800, 40000))):
+        sc = rng.choice(SCALES)
+        d = dict(c)
+        d["lo"] = [x * sc for x in c["lo"]]
+        d["hi"] = [x * sc for x in c["hi"]]
+        d["stream"] = "scaled"
+        cases.append(d)
+    # ---- 7. helpers and interactions, spread over every array stream: memory layouts of rank-2 operands (Fortran order,
+    #         transposed view), rank 3, python lists, integer dtype; operands copied / deep-copied / pickled / rebuilt / sliced
+    for c in cases:
+        if c["stream"] == "witness":
+            continue
+        r = rng.random()
+        if c["form"] == "A2" and r < 0.55:
+            c["form"] = rng.choice(["A2F", "A2T", "A3"])
+        elif c["form"] == "A" and r < 0.2:
+            c["form"] = rng.choice(["AL", "AI"])
+        if rng.random() < 0.12:
+            c["prep"] = rng.choice(["copy", "deepcopy", "pickle", "rebuilt", "getitem"])
     return cases
 
 
@@ -768,7 +907,7 @@ def nontrivial(c):
 
 
 def case_json(c, impl=None, model=None):
-    d = {k: c[k] for k in ("stream", "fn", "form", "entry", "lo", "hi", "k", "kind")}
+    d = {k: c.get(k) for k in ("stream", "fn", "form", "entry", "lo", "hi", "k", "kind", "prep")}
     d["lo_hex"] = [float(x).hex() for x in c["lo"]]
     d["hi_hex"] = [float(x).hex() for x in c["hi"]]
     if impl is not None:
@@ -802,6 +941,11 @@ def run(ctx: core.Check, cases=None):
                 "mixing moderate and extreme); sqrt/log with lo just below 0 (-5e-324 ... -1e-9) and just inside, through method, "
                 "np.<ufunc> and methods.<fn>; arrays whose elements have an endpoint exactly on a multiple of pi/2; powers whose "
                 "endpoint powers underflow/overflow.  The operand is checked for in-place modification after every call. "
+                "Every function (incl. activation.tanh, whose Interval/Interval division goes through C01's quotient table) on "
+                "arrays mixing the sign classes per element (negative / straddling / positive / touching 0 / the point 0), rank 1 "
+                "and 2; compositions sqrt(X**k); all grid and array streams again at scales 2^-30, 2^-52, 2^-70, 1e-19, 1e-170, 2^36, "
+                "1e150; rank-2 operands in Fortran order, as transposed views and as rank 3, python lists, integer dtype; operands "
+                "copied / deep-copied / pickled / rebuilt from lo, hi / sliced before use. "
                 "A case is non-trivial unless it is the single point 0 or 1; distinctness on (fn,form,entry,lo,hi,k,kind).")
     ctx.assumptions = [
         "binary64 rounding is not modelled; numpy's exp/log/sqrt/sin/cos/tan values and the rounded width and "
@@ -827,12 +971,16 @@ def run(ctx: core.Check, cases=None):
         cases = gen_cases(ctx)
     replies = core.model_batch("C05", [wire(c) for c in cases])
     for c, rep in zip(cases, replies):
-        key = (c["fn"], c["form"], c["entry"], tuple(c["lo"]), tuple(c["hi"]), c["k"], c["kind"])
+        key = (c["fn"], c["form"], c["entry"], tuple(c["lo"]), tuple(c["hi"]), c["k"], c["kind"], c.get("prep"))
         ctx.count(key, nontrivial(c), c["stream"])
         impl = run_impl(c)
         mutated = MUTATED[0]
         model = parse_model(c, rep)
-        if pow_out_of_range(c):
+        if c["fn"] in ORACLE_ONLY:
+            ctx.bump("tie-not-applicable:composition")
+        elif c["fn"] == "atanh" and not all(math.isfinite(float(np.exp(2 * x))) for x in c["hi"]):
+            ctx.bump("tie-not-applicable:atanh-overflow")
+        elif pow_out_of_range(c):
             ctx.bump("tie-not-applicable:pow-underflow/overflow")
         elif agree(c, impl, model):
             ctx.tie_ok()
@@ -861,7 +1009,7 @@ def replay(obj):
     if "fn" not in c:
         print(core.json.dumps(obj, indent=1))
         return 0
-    c = {k: c.get(k) for k in ("stream", "fn", "form", "entry", "lo", "hi", "k", "kind")}
+    c = {k: c.get(k) for k in ("stream", "fn", "form", "entry", "lo", "hi", "k", "kind", "prep")}
     if "lo_hex" in obj.get("case", {}):
         c["lo"] = [float.fromhex(h) for h in obj["case"]["lo_hex"]]
         c["hi"] = [float.fromhex(h) for h in obj["case"]["hi_hex"]]
